@@ -16,54 +16,63 @@ def prepare(repo_dir):
     return ok, out
 
 def lean_obligations(R, prop, repo_dir, module=None):
-    """build KV.Props.<prop>, record one obligation per theorem; returns the list of broken theorem names"""
+    """build every KV.Props.<prop>* module, record one obligation per theorem; returns broken theorem names"""
     prepare(repo_dir)
-    module = module or "KV.Props." + prop
-    rel = module.replace(".", "/") + ".lean"
-    path = os.path.join(C.LEAN, rel)
-    thms = C.theorems_in(path)
-    ns = None
-    m = re.search(r"^namespace\s+(\S+)", open(path).read(), re.M)
-    if m:
-        ns = m.group(1)
-    ok, out = C.lake_build([module])
+    import glob
+    if module:
+        modules = [module]
+    else:
+        modules = sorted("KV.Props." + os.path.basename(f)[:-5] for f in glob.glob(os.path.join(C.LEAN, "KV", "Props", prop + "*.lean")))
     broken = []
     bad_tokens = C.forbidden_tokens()
+    R.oblige("no sorry/admit/axiom/native_decide/bv_decide/implemented_by/unsafe in lean/", not bad_tokens, "; ".join(bad_tokens[:5]))
     if bad_tokens:
-        R.oblige("no sorry/admit/axiom/native_decide/bv_decide/implemented_by/unsafe in lean/", False, "; ".join(bad_tokens[:5]))
         broken.append("forbidden-tokens")
-    else:
-        R.oblige("no sorry/admit/axiom/native_decide/bv_decide/implemented_by/unsafe in lean/", True)
-    if ok:
-        names = [(ns + "." + n if ns else n) for n, _, _ in thms]
-        ax, raw = C.audit_axioms(module, names)
-        for n in names:
-            a = ax.get(n)
-            if a is None:
-                R.oblige("theorem " + n, False, "not found by #print axioms"); broken.append(n)
-            elif not set(a) <= C.ALLOWED_AXIOMS:
-                R.oblige("theorem " + n, False, "depends on axioms %s" % a); broken.append(n)
-            else:
-                R.oblige("theorem " + n, True, "axioms: %s" % (a or "none"))
-        R.coverage.setdefault("axioms", {}).update({n: ax.get(n) for n in names})
-    else:
-        failed = C.failed_modules(out)
-        errs = C.error_lines(out, rel)
-        dep_failed = [f for f in failed if f != module]
-        first_err = ""
-        m = re.search(r"error: (.*(?:\n(?!error:|warning:|✖|✔|⚠).*){0,6})", out)
-        if m:
-            first_err = m.group(1)[:600]
-        for n, s, e in thms:
-            full = ns + "." + n if ns else n
-            hit = any(s <= l <= e for l in errs)
-            if hit or dep_failed or not errs:
-                R.oblige("theorem " + full, False, "proof no longer checks" + (" (dependency %s failed)" % dep_failed if dep_failed else ""))
-                broken.append(full)
-            else:
-                R.oblige("theorem " + full, False, "module did not build (error elsewhere in the file)")
-        R.coverage["lean_error"] = first_err
-        R.coverage["failed_modules"] = failed
+    for module in modules:
+        rel = module.replace(".", "/") + ".lean"
+        path = os.path.join(C.LEAN, rel)
+        thms = C.theorems_in(path)
+        src = re.sub(r"/-.*?-/", "", open(path).read(), flags=re.S)
+        # namespace of each theorem: the innermost `namespace X` open at its line (files may hold several)
+        ns_at = {}
+        stack = []
+        for i, l in enumerate(re.sub(r"/-.*?-/", lambda m: "\n" * m.group(0).count("\n"), open(path).read(), flags=re.S).split("\n")):
+            m = re.match(r"^namespace\s+(\S+)", l)
+            if m:
+                stack.append(m.group(1))
+            m = re.match(r"^end\s+(\S+)", l)
+            if m and stack and stack[-1] == m.group(1):
+                stack.pop()
+            ns_at[i + 1] = ".".join(stack)
+        ok, out = C.lake_build([module])
+        if ok:
+            names = [((ns_at.get(s0, "") + "." + n) if ns_at.get(s0, "") else n) for n, s0, _ in thms]
+            ax, raw = C.audit_axioms(module, names)
+            for n in names:
+                a = ax.get(n)
+                if a is None:
+                    R.oblige("theorem " + n, False, "not found by #print axioms"); broken.append(n)
+                elif not set(a) <= C.ALLOWED_AXIOMS:
+                    R.oblige("theorem " + n, False, "depends on axioms %s" % a); broken.append(n)
+                else:
+                    R.oblige("theorem " + n, True, "axioms: %s" % (a or "none"))
+            R.coverage.setdefault("axioms", {}).update({n: ax.get(n) for n in names})
+        else:
+            failed = C.failed_modules(out)
+            errs = C.error_lines(out, rel)
+            dep_failed = [f for f in failed if f != module]
+            m = re.search(r"error: (.*(?:\n(?!error:|warning:|✖|✔|⚠).*){0,6})", out)
+            first_err = m.group(1)[:600] if m else ""
+            for n, s0, e0 in thms:
+                full = (ns_at.get(s0, "") + "." + n) if ns_at.get(s0, "") else n
+                hit = any(s0 <= l <= e0 for l in errs)
+                if hit or dep_failed or not errs:
+                    R.oblige("theorem " + full, False, "proof no longer checks" + (" (dependency %s failed)" % dep_failed if dep_failed else ""))
+                    broken.append(full)
+                else:
+                    R.oblige("theorem " + full, False, "module did not build (error elsewhere in the file)")
+            R.coverage["lean_error"] = first_err
+            R.coverage["failed_modules"] = failed
     R.broken = broken
     return broken
 
